@@ -122,6 +122,29 @@ fn collision_kinds() -> Vec<Kind> {
             class: "collision",
             build: |mut v| T::Call(Box::new(T::Lam(vec![LArg::Req("q".into()), LArg::Rest("d".into())], Box::new(T::List(vec![T::id("d"), T::id("q"), v.remove(0)])))), vec![T::num(1.0), T::num(2.0)]),
         },
+        // the same with the captured name also used outside the inner function (so that it is captured)
+        Kind {
+            name: "lam-optional-param-c-and-outer-c",
+            slots: vec![SlotKind::Expr],
+            is_expr: true,
+            class: "collision",
+            build: |mut v| T::List(vec![
+                T::Call(Box::new(T::Lam(vec![LArg::Opt("c".into())], Box::new(T::List(vec![T::id("c"), v.remove(0)])))), vec![T::num(9.0)]),
+                T::Call(Box::new(T::Lam(vec![LArg::Req("q".into()), LArg::Opt("c".into())], Box::new(T::List(vec![T::id("q"), T::id("c")])))), vec![T::num(1.0)]),
+                T::id("c"),
+            ]),
+        },
+        Kind {
+            name: "lam-rest-param-d-and-outer-d",
+            slots: vec![SlotKind::Expr],
+            is_expr: true,
+            class: "collision",
+            build: |mut v| T::List(vec![
+                T::id("d"),
+                T::Call(Box::new(T::Lam(vec![LArg::Rest("d".into())], Box::new(T::List(vec![T::id("d"), v.remove(0)])))), vec![T::num(1.0), T::num(2.0)]),
+                T::Call(Box::new(T::Lam(vec![LArg::Req("q".into()), LArg::Rest("d".into())], Box::new(T::List(vec![T::id("d"), T::id("q")])))), vec![T::num(1.0), T::num(2.0)]),
+            ]),
+        },
         Kind {
             name: "do-shadow-c",
             slots: vec![SlotKind::Expr],
